@@ -166,7 +166,7 @@ def audit(prop, modules):
     if rc != 0:
         raise Broken("theorem", "axiom audit", (out + err)[-3000:])
     axioms = {}
-    for m in re.finditer(r"'([^']+)' (depends on axioms: \[([^\]]*)\]|does not depend on any axioms)", out.replace("\n", " ")):
+    for m in re.finditer(r"'(\S+?)' (depends on axioms: \[([^\]]*)\]|does not depend on any axioms)", out.replace("\n", " ")):
         axioms[m.group(1)] = [a.strip() for a in (m.group(3) or "").split(",") if a.strip()]
     json.dump({"key": key, "mtime": olean_mtime, "axioms": axioms}, open(cache, "w"))
     return names, axioms
